@@ -96,6 +96,8 @@ pub struct Report {
     samples: Mutex<Vec<Value>>,
     violations: Mutex<Vec<Violation>>,
     nviol: AtomicU64,
+    nknown: AtomicU64,
+    known: Vec<KnownFinding>,
     stop: AtomicBool,
     pub exhaustive: AtomicBool,
     machinery: Mutex<Vec<String>>,
@@ -141,6 +143,8 @@ impl Report {
             samples: Mutex::new(vec![]),
             violations: Mutex::new(vec![]),
             nviol: AtomicU64::new(0),
+            nknown: AtomicU64::new(0),
+            known: load_known_findings(),
             stop: AtomicBool::new(false),
             exhaustive: AtomicBool::new(true),
             machinery: Mutex::new(vec![]),
@@ -202,6 +206,19 @@ impl Report {
         self.samples.lock().unwrap().len()
     }
     pub fn violation(&self, v: Violation) {
+        // counterexamples of an open known finding are counted but never stop the exploration
+        if self
+            .known
+            .iter()
+            .any(|k| k.status == "open" && k.property == v.prop && k.class == v.class)
+        {
+            self.nknown.fetch_add(1, Ordering::Relaxed);
+            let mut g = self.violations.lock().unwrap();
+            if g.iter().filter(|x| x.class == v.class).count() < 2 {
+                g.push(v);
+            }
+            return;
+        }
         let n = self.nviol.fetch_add(1, Ordering::Relaxed);
         let mut g = self.violations.lock().unwrap();
         // keep at most a handful per class so that several classes can be reported
@@ -209,7 +226,11 @@ impl Report {
         if same < 3 {
             g.push(v);
         }
-        if n + 1 >= MAX_VIOLATIONS * 50 || g.len() as u64 >= MAX_VIOLATIONS {
+        let unknown_kept = g
+            .iter()
+            .filter(|x| !self.known.iter().any(|k| k.status == "open" && k.property == x.prop && k.class == x.class))
+            .count() as u64;
+        if n + 1 >= MAX_VIOLATIONS * 50 || unknown_kept >= MAX_VIOLATIONS {
             self.stop.store(true, Ordering::Relaxed);
         }
     }
@@ -238,7 +259,7 @@ impl Report {
     /// Returns the process exit code.
     pub fn finish(&self, replay: &dyn Fn(&Value) -> Vec<Violation>) -> i32 {
         let wall = self.start.elapsed().as_secs_f64();
-        let known = load_known_findings();
+        let known = self.known.clone();
         let viols = self.violations.lock().unwrap().clone();
         let total_viol = self.nviol.load(Ordering::Relaxed);
         let mut unknown: Vec<(Violation, String)> = vec![];
@@ -339,6 +360,10 @@ impl Report {
                 .collect::<Vec<_>>()),
         );
         cov.insert("violations_total_observed".into(), json!(total_viol));
+        cov.insert(
+            "known_finding_counterexamples_observed".into(),
+            json!(self.nknown.load(Ordering::Relaxed)),
+        );
         cov.insert("machinery_failures".into(), json!(machinery));
         let mut samples = self.samples.lock().unwrap().clone();
         if samples.is_empty() {
